@@ -322,8 +322,12 @@ def check_locking_deque(run, model, rule_ends, rule_token, rule_bound, rule_mono
                      '' if held is None else ('the blocking put of a wake-up token runs inside `with %s`: two posters that both saw "not full" at 499 tokens race, the second blocks in '
                                               'put() holding the lock, and the consumer - which needs that lock to pop and thereby make room - blocks too: the post never returns' % held),
                      node=c, obligation=True)
-            g1 = any(guarded_by_edge(g, n, t, lab) for t, lab in full_tests)
-            g2 = any(op is ast.Lt and guarded_by_edge(g, n, t, 'true') for t, op in lt_tests)
+            from .boolflow import must_atoms
+            atoms = must_atoms(g, n, f.node, params=f.params)
+            fulltxt = '%s.%s.full()' % (selfn, tq)
+            qs, ln = '%s.%s.qsize()' % (selfn, tq), 'len(%s.%s)' % (selfn, dq)
+            g1 = any(l == fulltxt and ((op in ('Is', 'Eq') and r == 'False') or op == 'Falsy' or (op in ('IsNot', 'NotEq') and r == 'True')) for (l, op, r) in atoms)
+            g2 = any(l == qs and op == 'Lt' and r == ln for (l, op, r) in atoms)
             ok = g1 or g2
             run.inst(rule_token, f, 'blocking put is guarded by not-full or tokens<items', ok,
                      '' if ok else 'a blocking put on the token queue is reachable without a guard that there is room: a post can block forever', node=c, obligation=True)
